@@ -29,6 +29,10 @@ import (
 
 const kInsGoodRefused = "C19/install/doc/good-install-refused"
 const kInsManifestSigned = "C19/install/manifest-signed-flag-differs-from-verifier-outcome"
+// kInsOutsideCacheDigest is the sub-shape of kInsOutside found on the real code:
+// a declared sha256 that is a relative path makes CacheLookup (cache.go) read
+// <cache>/<digest>/artifact and RemoveAll(<cache>/<digest>) outside .registry/.
+const kInsOutsideCacheDigest = "C19/install/write-outside-registry-dir-or-final-artifact/cache-lookup-of-path-like-declared-digest"
 const kInsTooLarge = "C19/install/doc/download-larger-than-declared-size-installed"
 
 // ---- case description -----------------------------------------------------------
@@ -49,7 +53,7 @@ type installCase struct {
 	Archive   ArchiveSpec `json:"archive"`
 	RootName  string      `json:"root_name,omitempty"`
 	RootData  []byte      `json:"root_data,omitempty"`
-	Digest    string      `json:"digest"`     // right | upper | prefixed | bogus | malformed | short | empty
+	Digest    string      `json:"digest"`     // right | upper | prefixed | bogus | malformed | short | empty | traversal | traversal-prefixed
 	Size      string      `json:"size"`       // exact | small | large | zero
 	SizeDelta int         `json:"size_delta"` // for small/large
 	Bundles   string      `json:"bundles"`    // none | sig | sig+vprov | sig+aprov | missing | big
@@ -245,6 +249,11 @@ func declaredDigest(mode string, a []byte) string {
 		return right[:62]
 	case "empty":
 		return ""
+	case "traversal":
+		// relative to <target>/.registry/cache this is <parent of target>/victim
+		return "../../../victim"
+	case "traversal-prefixed":
+		return "sha256:../../../victim"
 	default:
 		return right
 	}
@@ -341,7 +350,7 @@ func unsignedLogHas(path, digestHex string) bool {
 func runInstall(c installCase) (facts []opFacts, out []verdict) {
 	base := caseDir("ins")
 	defer os.RemoveAll(base)
-	for _, f := range []string{"abs", "x", "outside.txt", "w/x", "w/outside.txt", "w/abs", "w/conduit-connector-x"} {
+	for _, f := range []string{"abs", "x", "outside.txt", "w/x", "w/outside.txt", "w/abs", "w/conduit-connector-x", "w/victim/artifact", "w/victim/keep.txt"} {
 		mustWrite(filepath.Join(base, f), []byte("sentinel:"+f), 0o644)
 	}
 	dirName := "connectors"
@@ -458,7 +467,11 @@ func runInstall(c installCase) (facts []opFacts, out []verdict) {
 		for _, ch := range of.Changes {
 			ok := under(ch.Path, registryRel) || ch.Path == artifactRel || (ch.Path == targetRel && ch.Kind == "created")
 			if !ok {
-				bad(kInsOutside, fmt.Sprintf("%s %q (allowed: %q/** and %q)", ch.Kind, ch.Path, registryRel, artifactRel))
+				k := kInsOutside
+				if strings.HasPrefix(c.Digest, "traversal") && ch.Kind == "removed" && under(ch.Path, filepath.Join("w", "victim")) {
+					k = kInsOutsideCacheDigest
+				}
+				bad(k, fmt.Sprintf("%s %q (allowed: %q/** and %q); declared sha256 %q", ch.Kind, ch.Path, registryRel, artifactRel, declaredDigest(c.Digest, a)))
 				break
 			}
 		}
@@ -561,7 +574,7 @@ func genInstallOp(t *rapid.T, i int) installOp {
 	return op
 }
 
-func genInstallCase(t *rapid.T) installCase {
+func genInstallCase(t *rapid.T, st *pbt.Stats) installCase {
 	c := installCase{Part: "install"}
 	c.Kind = pick(t, "kind", "connector", 5, "processor", 1)
 	if rapid.IntRange(0, 3).Draw(t, "hostile-archive") == 0 {
@@ -569,7 +582,12 @@ func genInstallCase(t *rapid.T) installCase {
 	} else {
 		c.Archive, c.RootName, c.RootData = genWellFormed(t)
 	}
-	c.Digest = pick(t, "digest", "right", 10, "upper", 1, "prefixed", 1, "bogus", 3, "malformed", 1, "short", 1, "empty", 1)
+	c.Digest = pick(t, "digest", "right", 10, "upper", 1, "prefixed", 1, "bogus", 3, "malformed", 1, "short", 1, "empty", 1, "traversal", 1, "traversal-prefixed", 1)
+	if strings.HasPrefix(c.Digest, "traversal") && st.IsKnown(kInsOutsideCacheDigest) {
+		// known defect: exclude exactly this shape so that the search continues behind it
+		st.Exclude(kInsOutsideCacheDigest)
+		c.Digest = "malformed"
+	}
 	c.Size = pick(t, "size", "exact", 8, "small", 3, "large", 3, "zero", 1)
 	c.SizeDelta = rapid.IntRange(0, 2000).Draw(t, "sizedelta")
 	c.Bundles = pick(t, "bundles", "none", 6, "sig", 3, "sig+vprov", 2, "sig+aprov", 2, "missing", 1, "big", 1)
@@ -628,7 +646,7 @@ func TestC19Install(t *testing.T) {
 	st := pbt.For(prop)
 	defer st.Finish(t)
 	rapid.Check(t, func(t *rapid.T) {
-		c := genInstallCase(t)
+		c := genInstallCase(t, st)
 		pbt.MarkCurrent(prop, c)
 		facts, vs := runInstall(c)
 		cls, nontrivial := installClasses(c, facts)
